@@ -346,6 +346,10 @@ func (c *c07Case) expect() c07Expect {
 			if sel = findProf(regs, c.S2.Name); sel == nil {
 				return c07Expect{Err: true}
 			}
+		case "nontext":
+			// eat_profile of a wrong CBOR type: not a conformant token of any
+			// profile (C04), whatever else the map holds
+			return c07Expect{Err: true}
 		default:
 			return c07Expect{Soft: true}
 		}
@@ -525,7 +529,7 @@ func c07Check(c *c07Case) string {
 	}
 	sel, view := ex.Sel, ex.View
 	valid := view.Valid() && !c.viewBroken(sel)
-	if c.ExtTS != nil && *c.ExtTS < 0 && (sel.Type == "*checks.ExtP2Claims" || sel.Type == "*checks.ExtP1Claims") {
+	if extRuleBroken(c.ExtTS) && (sel.Type == "*checks.ExtP2Claims" || sel.Type == "*checks.ExtP1Claims") {
 		// the selected extension profile's OWN rule (beyond the ten standard
 		// claims): a token is validated under the rules of the profile it declares
 		valid = false
@@ -635,7 +639,7 @@ func drawSlot(t *rapid.T, label string, kinds []string) slotVal {
 }
 
 func TestC07_Dispatch(t *testing.T) {
-	st := NewStats("C07", "TestC07_Dispatch", "rapid: a body of profile-1 or profile-2 claims (valid, or with 1..2 rule deviations) in CBOR (independent encoder; optionally with the other profile's complete body mixed in), the same CBOR as payload of a signed COSE envelope decoded by an Evidence that is fresh or already holds claims of either profile (decoded, attached, or after a failed decode), or JSON (harness's own writer; profile strings and member names optionally written with equivalent escape sequences); tokens for the extension profiles may carry the extension's own claim with a value its Validate() rejects; optionally after registrations that must be refused (existing names, claims types without usable profile field), combined with every class of profile claim under each profile's key/member (-75000 / 265, psa-profile / eat-profile / x-profile): absent, null, undefined, empty, non-text, one of 24 names (the two built-ins, three extension names, unknown URIs, and look-alikes that case / URL / whitespace normalisation would map onto a registered name), under one key or both; with every subset of three extra profiles registered through the checkpoint hook (an extension of profile 2 sharing eat-profile, an extension of profile 1 sharing psa-profile, one with its own JSON member). Oracle: reference dispatcher (CBOR: key 265 absent -> profile 1, registered name -> that profile, other text -> error; JSON: exactly one registered name matched -> it, a present non-null profile member matching nothing or two profiles matched -> error, none present -> profile 1); result type = selected profile's; decode-and-validate succeeds iff the token is valid under THAT profile's rules (independent model, cross-read member names); accepted token reports the declared name and the wire values; NewClaims(p) reports p for every registered p and fails otherwise. Key 265 holding ''/null/undefined/non-text or the profile-1 name: error or identical to the token without it. Non-trivial = profile claim not simply present-and-matching with nothing else registered; distinct = format + slots + registered set + validity class")
+	st := NewStats("C07", "TestC07_Dispatch", "rapid: a body of profile-1 or profile-2 claims (valid, or with 1..2 rule deviations) in CBOR (independent encoder; optionally with the other profile's complete body mixed in), the same CBOR as payload of a signed COSE envelope decoded by an Evidence that is fresh or already holds claims of either profile (decoded, attached, or after a failed decode), or JSON (harness's own writer; profile strings and member names optionally written with equivalent escape sequences); tokens for the extension profiles may carry the extension's own claim with a value its Validate() rejects; optionally after registrations that must be refused (existing names, claims types without usable profile field), combined with every class of profile claim under each profile's key/member (-75000 / 265, psa-profile / eat-profile / x-profile): absent, null, undefined, empty, non-text, one of 24 names (the two built-ins, three extension names, unknown URIs, and look-alikes that case / URL / whitespace normalisation would map onto a registered name), under one key or both; with every subset of three extra profiles registered through the checkpoint hook (an extension of profile 2 sharing eat-profile, an extension of profile 1 sharing psa-profile, one with its own JSON member). Oracle: reference dispatcher (CBOR: key 265 absent -> profile 1, registered name -> that profile, other text -> error; JSON: exactly one registered name matched -> it, a present non-null profile member matching nothing or two profiles matched -> error, none present -> profile 1); result type = selected profile's; decode-and-validate succeeds iff the token is valid under THAT profile's rules (independent model, cross-read member names); accepted token reports the declared name and the wire values; NewClaims(p) reports p for every registered p and fails otherwise. Key 265 holding a non-text item: error. Key 265 holding ''/null/undefined or the profile-1 name: error or identical to the token without it. Non-trivial = profile claim not simply present-and-matching with nothing else registered; distinct = format + slots + registered set + validity class")
 	st.Require = []string{"cbor", "json", "cose", "cose-used-evidence", "after-refused-registration", "json-escapes", "extension-own-rule-violated", "expect=error", "expect=soft", "expect=selected-valid", "expect=selected-invalid", "sel=default", "sel=extension", "reg=0", "reg>0", "both-keys", "cross-profile"}
 	defer st.Flush(t)
 	registerMu.Lock()
@@ -650,7 +654,7 @@ func TestC07_Dispatch(t *testing.T) {
 			c.EscKey = rapid.IntRange(0, 5).Draw(t, "esckey") == 0
 		}
 		if rapid.IntRange(0, 2).Draw(t, "ext.ts") == 0 {
-			ts := rapid.SampledFrom([]int64{0, 1, 1700000000, -1, -1700000000, 1 << 40}).Draw(t, "ext.ts.val")
+			ts := rapid.SampledFrom([]int64{0, 1, 1700000000, -1, -1700000000, 1 << 40, extTSNotInProfile, extTSOptionalish}).Draw(t, "ext.ts.val")
 			c.ExtTS = &ts
 		}
 		switch rapid.IntRange(0, 5).Draw(t, "failedreg") {
@@ -721,6 +725,11 @@ func TestC07_Dispatch(t *testing.T) {
 				if c.S2.Name == OwnTagName && c.Format == "json" {
 					c.SX = slotVal{Kind: "name", Name: OwnTagName}
 				}
+				if c.S2.Name != P2Name && rapid.IntRange(0, 2).Draw(t, "p1form.certref") == 0 {
+					// a profile derived from profile 2 inherits profile 2's rule:
+					// the bare EAN-13 form is profile 1's
+					c.Body.CertRef = sp(drawDigits(t, 13, "cert.ean13"))
+				}
 			}
 		}
 		var msg string
@@ -739,7 +748,7 @@ func TestC07_Dispatch(t *testing.T) {
 		if c.EscVal || c.EscKey {
 			defer st.Class("json-escapes")
 		}
-		if c.ExtTS != nil && *c.ExtTS < 0 && !ex.Err && !ex.Soft && ex.Sel != nil && ex.Sel.Impl != nil {
+		if extRuleBroken(c.ExtTS) && !ex.Err && !ex.Soft && ex.Sel != nil && ex.Sel.Impl != nil {
 			defer st.Class("extension-own-rule-violated")
 		}
 		cls := []string{c.Format}
@@ -778,7 +787,7 @@ func TestC07_Dispatch(t *testing.T) {
 		if !simple {
 			regs := append([]int{}, c.Reg...)
 			sort.Ints(regs)
-			key = fmt.Sprintf("%v%v%v|%s|%s|%v|%v|%v|%v|%v|%v|%s", c.EscVal, c.EscKey, c.ExtTS != nil && *c.ExtTS < 0, c.Format, c.Prior, c.FailedReg, c.S1, c.S2, c.SX, regs, c.Other != nil, strings.Join(cls, ","))
+			key = fmt.Sprintf("%v%v%v|%s|%s|%v|%v|%v|%v|%v|%v|%s", c.EscVal, c.EscKey, extRuleBroken(c.ExtTS), c.Format, c.Prior, c.FailedReg, c.S1, c.S2, c.SX, regs, c.Other != nil, strings.Join(cls, ","))
 			if body.Valid() {
 				key += "|" + q.String()
 			} else {
